@@ -350,6 +350,45 @@ def gen_linesearch_configs(tier, rng):
                    opts=dict(tol=1e-300, normalize=rng.random() < 0.3, linesearch=True, n_iter_parafac=rng.choice([1, 2, 5])))
 
 
+def gen_signed_svd_tucker_configs(tier, rng):
+    """non_negative_tucker / _hals, init='svd', standard-normal (substantially signed) data, caps 0 / 1 / 5: the sign of the CORE
+    (multi_mode_dot(tensor, factors) of signed data is signed: only the abs of the initialiser and the clipped updates make it feasible)"""
+    shapes = [(3, 4), (4, 3, 3), (3, 3, 2, 2), (5, 4, 3)] if tier == "quick" else [(3, 4), (4, 3, 3), (3, 3, 2, 2), (5, 4, 3), (2, 2), (6, 5), (4, 4, 4), (2, 3, 2, 3)]
+    for rep in range(1 if tier == "quick" else 4):
+        for shape in shapes:
+            X = np.array([rng.gauss(0, 1) for _ in range(int(np.prod(shape)))]).reshape(shape)
+            ranks = [rng.randint(1, min(3, s)) for s in shape]
+            if rep % 2 == 1:
+                ranks = [min(2, s) for s in shape]
+            for cap in (0, 1, 5):
+                rs = rng.randrange(10 ** 6)
+                yield dict(algo="nn_tucker_mu", tensor=X, klass="gauss", rank=list(ranks), init="svd", n=cap, rs=rs, nn_modes="all",
+                           opts=dict(tol=rng.choice([0, 1e-5]), normalize=rng.random() < 0.3))
+                for alg in ("fista", "active_set"):
+                    yield dict(algo="nn_tucker_hals", tensor=X, klass="gauss", rank=list(ranks), init="svd", n=cap, rs=rs, nn_modes="all",
+                               opts=dict(tol=rng.choice([0, 1e-8]), normalize=rng.random() < 0.3, fixed_modes=None, sparsity=None,
+                                         algorithm=alg, core_sparsity=None, exact=False))
+
+
+def gen_parafac2_linesearch_02_configs(tier, rng):
+    """parafac2(nn_modes=[0, 2]) with the default line search on signed slices and odd caps 7 / 9 / 11: the last executed sweep (6, 8, 10) is a
+    line-search sweep, an accepted jump returns the extrapolated iterate itself.  Accepted jumps with a negative extrapolation are rare
+    (~3-8% of runs: sparse signed data and a single inner PARAFAC iteration are the most productive), hence many cheap runs."""
+    nrun = 90 if tier == "quick" else 500
+    for k in range(nrun):
+        I, J, K = rng.randint(2, 4), rng.randint(2, 5), rng.randint(2, 4)
+        R = rng.randint(1, min(J, K, 3))
+        g = np.array([rng.gauss(0, 1) for _ in range(I * J * K)]).reshape(I, J, K)
+        kind = "sparse" if k % 3 != 2 else "gauss"
+        if kind == "sparse":
+            g = g * np.array([rng.random() < 0.5 for _ in range(I * J * K)]).reshape(I, J, K)
+            if not g.any():
+                g[0, 0, 0] = 1.0
+        X = g if k % 5 else [g[i][: rng.randint(R, J)] if False else g[i] for i in range(I)]
+        yield dict(algo="parafac2", tensor=X, klass=kind, rank=R, init=rng.choice(["random", "random", "svd"]), n=(7, 9, 11)[k % 3], rs=rng.randrange(10 ** 6),
+                   nn_modes=[0, 2], opts=dict(tol=1e-300, normalize=(k % 7 == 0), linesearch=True, n_iter_parafac=(5 if k % 9 == 0 else 1)))
+
+
 def quiet_run(cfg):
     with warnings.catch_warnings():
         warnings.simplefilter("ignore")
@@ -535,6 +574,10 @@ def run(chk):
         evaluate_cfg(chk, cfg, stats)
     for cfg in gen_linesearch_configs(chk.tier, rng):
         evaluate_cfg(chk, cfg, stats)
+    for cfg in gen_signed_svd_tucker_configs(chk.tier, rng):
+        evaluate_cfg(chk, cfg, stats)
+    for cfg in gen_parafac2_linesearch_02_configs(chk.tier, rng):
+        evaluate_cfg(chk, cfg, stats)
     for cfg in gen_solver_cfgs(chk.tier, rng):
         evaluate_solver(chk, cfg, stats)
     stage("decomposition_runs")
@@ -559,7 +602,8 @@ def run(chk):
     chk.cov["decomposition_runs_checked"] = stats["checked"]
     chk.cov["runs_with_negative_entries_on_undeclared_modes"] = stats["undeclared_negative"]
     chk.cov["runs_raising"] = len(stats["not_ok"])
-    chk.notes += [f"raised: {x}" for x in stats["not_ok"][:12]]
+    import collections as _c
+    chk.notes += [f"raised x{n}: {k}" for k, n in _c.Counter((a, str(msg)[:70]) for a, _k, _i, msg in stats["not_ok"]).most_common(15)]
     return chk.finish(CLASSIFIERS)
 
 
@@ -951,6 +995,194 @@ def corr_tucker_full(rng, tier):
     return out, skipped
 
 
+def gen_float_tensor(rng, shape, klass):
+    g = np.array([rng.gauss(0, 1) for _ in range(int(np.prod(shape)))]).reshape(shape)
+    if klass == "nonneg":
+        return np.abs(g) + 0.01
+    if klass == "negative":
+        return -np.abs(g) - 0.01
+    if klass == "sparse":
+        m = np.array([rng.random() < 0.5 for _ in range(g.size)]).reshape(shape)
+        g = g * m
+        if not g.any():
+            g.flat[0] = 1.0
+    return g
+
+
+def opt_list_lit(xs):
+    return "[" + "; ".join(C.opt(x, C.q) for x in xs) + "]"
+
+
+def corr_hals_cp(rng, tier):
+    """complete runs of non_negative_parafac_hals from a user initialisation (outer tol=0: exactly n sweeps; every inner hals_nnls call with
+    its own stopping rule, up to 100 sweeps), executed by the model at the fixed-point carrier"""
+    from tensorly.decomposition import non_negative_parafac_hals
+    out = []
+    nrun = 8 if tier == "quick" else 70
+    for k in range(nrun):
+        order = rng.choice([2, 3, 3])
+        big = tier != "quick"
+        shape = tuple(rng.randint(2, 4 if big else 3) for _ in range(order))
+        rank = rng.choice([1, 2, 2, 3] if big else [1, 2, 2])
+        klass = rng.choice(["signed", "signed", "nonneg", "negative", "sparse"])
+        X = gen_float_tensor(rng, shape, klass)
+        Fs = [np.array([[rng.random() + 0.05 for _ in range(rank)] for _ in range(s)]) for s in shape]
+        if rng.random() < 0.15 and rank > 1:
+            Fs[rng.randrange(order)][:, rng.randrange(rank)] = 0.0
+        w = np.ones(rank) if rng.random() < 0.6 else np.array([rng.choice([0.5, 2.0, 1.0]) for _ in range(rank)])
+        nm = rng.random() < 0.4
+        fixed = [rng.randrange(order - 1)] if rng.random() < 0.3 else []
+        modes = [m for m in range(order) if m not in fixed]
+        nn = "all" if rng.random() < 0.5 else sorted(set(modes + ([fixed[0]] if fixed and rng.random() < 0.5 else [])))
+        sps = None if rng.random() < 0.6 else [rng.choice([None, 0.0, 0.1, 0.5]) for _ in range(order)]
+        n = rng.choice([0, 1, 1, 2]) if (rank == 1 or big) else rng.choice([0, 1, 1])     # rank >= 2: every inner call runs its 100 sweeps
+        st, r = C.call_impl(lambda: non_negative_parafac_hals(X.copy(), rank, n_iter_max=n, init=(w.copy(), [f.copy() for f in Fs]), tol=0,
+                                                              normalize_factors=nm, fixed_modes=list(fixed), nn_modes=nn,
+                                                              sparsity_coefficients=None if sps is None else list(sps)), timeout=120)
+        if st != "ok" or not finite_all(r[0], *r[1]):
+            continue
+        sps_model = [None] * order if sps is None else [None if m in fixed else sps[m] for m in range(order)]
+        nn_model = list(range(order)) if nn == "all" else nn
+        op = (f"(OHalsCp {C.qtensor(shape, [float(x) for x in X.reshape(-1)])} {qvec_lit(w)} {qmats_lit(Fs)} {C.nat_list(nn_model)} "
+              f"{opt_list_lit(sps_model)} {C.boolc(nm)} {C.nat_list(modes)} {n}%nat {C.q(1e-8)})")
+        scale = max(1.0, max(float(np.abs(f).max()) for f in r[1]), float(np.abs(r[0]).max()))
+        meta = {"corr": "non_negative_parafac_hals", "tensor": X, "weights": w, "factors": Fs, "normalize": nm, "fixed": fixed, "nn_modes": nn,
+                "sparsity": sps, "n": n}
+        out.append((op, Fraction(scale) / 10 ** 8, r[0], list(r[1]), meta))
+    return out
+
+
+def corr_tucker_hals(rng, tier):
+    """complete runs of non_negative_tucker_hals(algorithm='fista') from a user initialisation, 0 or 1 outer sweeps: HALS factor updates from the
+    model's own UtM / UtU with the inner stopping rule, FISTA core step with the recorded step size (SVD oracle), normalisation"""
+    from tensorly.decomposition import non_negative_tucker_hals
+    out = []
+    nrun = 6 if tier == "quick" else 60
+    for k in range(nrun):
+        order = rng.choice([2, 3, 3])
+        shape = tuple(rng.randint(2, 4 if tier != "quick" else 3) for _ in range(order))
+        ranks = [rng.randint(1, min(2, s)) for s in shape]
+        klass = rng.choice(["signed", "signed", "nonneg", "negative", "sparse"])
+        X = gen_float_tensor(rng, shape, klass)
+        Fs = [np.array([[rng.random() + 0.05 for _ in range(r)] for _ in range(s)]) for s, r in zip(shape, ranks)]
+        core = np.array([rng.random() + 0.05 for _ in range(int(np.prod(ranks)))]).reshape(ranks)
+        nm = rng.random() < 0.4
+        fixed = [rng.randrange(order - 1)] if rng.random() < 0.3 else []
+        modes = [m for m in range(order) if m not in fixed]
+        sps = None if rng.random() < 0.6 else [rng.choice([None, 0.0, 0.1, 0.5]) for _ in range(order)]
+        csp = rng.choice([None, None, 0.1])
+        n = rng.choice([0, 1, 1, 1])
+        call = lambda norm: C.call_impl(lambda: non_negative_tucker_hals(X.copy(), list(ranks), n_iter_max=n, init=(core.copy(), [f.copy() for f in Fs]), tol=0,
+                                                                         normalize_factors=norm, fixed_modes=list(fixed), algorithm="fista",
+                                                                         sparsity_coefficients=None if sps is None else list(sps),
+                                                                         core_sparsity_coefficient=csp), timeout=120)
+        st, r = call(nm)
+        if st != "ok" or not finite_all(r[0], *r[1]):
+            continue
+        lr = 1.0
+        if n == 1:
+            st2, r2 = call(False) if nm else (st, r)     # the step size is computed from the unnormalised factors of this sweep
+            if st2 != "ok":
+                continue
+            fs_sweep = [np.asarray(f) for f in r2[1]]
+            if nm:
+                # with normalisation the sweep starts from the normalised initialisation: redo the sweep from it without normalising
+                from tensorly.tucker_tensor import tucker_normalize
+                c0, f0 = tucker_normalize((core.copy(), [f.copy() for f in Fs]))
+                st2, r2 = C.call_impl(lambda: non_negative_tucker_hals(X.copy(), list(ranks), n_iter_max=1, init=(np.asarray(c0), [np.asarray(f) for f in f0]), tol=0,
+                                                                       normalize_factors=False, fixed_modes=list(fixed), algorithm="fista",
+                                                                       sparsity_coefficients=None if sps is None else list(sps),
+                                                                       core_sparsity_coefficient=csp), timeout=120)
+                if st2 != "ok":
+                    continue
+                fs_sweep = [np.asarray(f) for f in r2[1]]
+            for f in fs_sweep:
+                sv = float(np.linalg.svd(f.T @ f, compute_uv=False)[0])
+                if sv > 0:
+                    lr *= 1.0 / sv
+        sps_model = [None] * order if sps is None else [None if m in fixed else sps[m] for m in range(order)]
+        op = (f"(OTkHals {C.qtensor(shape, [float(x) for x in X.reshape(-1)])} {C.qtensor(ranks, [float(x) for x in core.reshape(-1)])} {qmats_lit(Fs)} "
+              f"{opt_list_lit(sps_model)} {C.q(0.0 if csp is None else csp)} {C.boolc(nm)} {C.nat_list(modes)} {C.q(1e-8)} {C.q(lr)} "
+              f"{C.q_list(fista_betas(n))} {n}%nat {C.q(1e-8)})")
+        scale = max(1.0, max(float(np.abs(f).max()) for f in r[1]), float(np.abs(np.asarray(r[0])).max()))
+        meta = {"corr": "non_negative_tucker_hals (fista)", "tensor": X, "core": core, "factors": Fs, "normalize": nm, "fixed": fixed,
+                "sparsity": sps, "core_sparsity": csp, "n": n, "lr": lr}
+        out.append((op, Fraction(scale) / 10 ** 8, np.asarray(r[0]).reshape(-1), [np.asarray(f) for f in r[1]], meta))
+    return out
+
+
+def corr_aset(rng, tier):
+    """active_set_nnls called directly vs the statement-by-statement transcription (exact rationals, elimination for the passive blocks)"""
+    from tensorly.solvers.nnls import active_set_nnls
+    out = []
+    nrun = 14 if tier == "quick" else 120
+    for k in range(nrun):
+        r = rng.randint(1, 4 if tier == "quick" else 5)
+        m = rng.randint(r, r + 3)
+        A = np.array([[rng.gauss(0, 1) for _ in range(r)] for _ in range(m)])
+        if rng.random() < 0.3:
+            A = np.abs(A)
+        G = A.T @ A
+        if not np.all(np.isfinite(G)) or np.linalg.cond(G) > 1e6:
+            continue
+        b = np.array([rng.gauss(0, 1) for _ in range(m)]) * rng.choice([1.0, 1.0, -1.0])
+        if rng.random() < 0.15:
+            b = -np.abs(b)
+        u = A.T @ b
+        kind = rng.choice(["none", "nonneg", "signed", "zero"])
+        x0 = {"none": None, "nonneg": np.abs(np.array([rng.gauss(0, 1) for _ in range(r)])), "signed": np.array([rng.gauss(0, 1) for _ in range(r)]),
+              "zero": np.zeros(r)}[kind]
+        n = rng.choice([1, 1, 2, 3, 5, 100])
+        st, x = C.call_impl(lambda: active_set_nnls(u.copy(), G.copy(), x=None if x0 is None else x0.copy(), n_iter_max=n), timeout=60)
+        if st != "ok" or not finite_all(x):
+            continue
+        x0m = np.zeros(r) if x0 is None else x0
+        op = f"(OAset {qvec_lit(u)} {qmat_lit(G)} {qvec_lit(x0m)} {n}%nat {C.q(10e-8)})"
+        scale = max(1.0, float(np.abs(x).max()))
+        meta = {"corr": "active_set_nnls", "Utm": u, "UtU": G, "x0": x0, "n_iter_max": n}
+        out.append((op, Fraction(scale) / 10 ** 8, np.asarray(x).reshape(-1), [], meta))
+    return out
+
+
+def corr_tucker_aset(rng, tier):
+    """complete runs of non_negative_tucker_hals(algorithm='active_set'), 0 or 1 outer sweeps, from a user initialisation"""
+    from tensorly.decomposition import non_negative_tucker_hals
+    out = []
+    nrun = 4 if tier == "quick" else 50
+    for k in range(nrun):
+        order = rng.choice([2, 3, 3])
+        shape = tuple(rng.randint(2, 4 if tier != "quick" else 3) for _ in range(order))
+        ranks = [rng.randint(1, min(2, s)) for s in shape]
+        klass = rng.choice(["signed", "signed", "nonneg", "sparse"])
+        X = gen_float_tensor(rng, shape, klass)
+        Fs = [np.array([[rng.random() + 0.05 for _ in range(r)] for _ in range(s)]) for s, r in zip(shape, ranks)]
+        core = np.array([rng.random() + 0.05 for _ in range(int(np.prod(ranks)))]).reshape(ranks)
+        nm = rng.random() < 0.3
+        fixed = [rng.randrange(order - 1)] if rng.random() < 0.3 else []
+        modes = [m for m in range(order) if m not in fixed]
+        sps = None if rng.random() < 0.7 else [rng.choice([None, 0.0, 0.1]) for _ in range(order)]
+        n = rng.choice([0, 1, 1, 1])
+        st, r = C.call_impl(lambda: non_negative_tucker_hals(X.copy(), list(ranks), n_iter_max=n, init=(core.copy(), [f.copy() for f in Fs]), tol=0,
+                                                             normalize_factors=nm, fixed_modes=list(fixed), algorithm="active_set",
+                                                             sparsity_coefficients=None if sps is None else list(sps)), timeout=120)
+        if st != "ok" or not finite_all(r[0], *r[1]):
+            continue
+        kr = np.ones((1, 1))
+        for f in r[1]:
+            f = np.asarray(f)
+            kr = np.kron(kr, f.T @ f)
+        if not np.all(np.isfinite(kr)) or np.linalg.cond(kr) > 1e4:
+            continue
+        sps_model = [None] * order if sps is None else [None if m in fixed else sps[m] for m in range(order)]
+        op = (f"(OTkAset {C.qtensor(shape, [float(x) for x in X.reshape(-1)])} {C.qtensor(ranks, [float(x) for x in core.reshape(-1)])} {qmats_lit(Fs)} "
+              f"{opt_list_lit(sps_model)} {C.boolc(nm)} {C.nat_list(modes)} {n}%nat {C.q(1e-8)})")
+        scale = max(1.0, max(float(np.abs(f).max()) for f in r[1]), float(np.abs(np.asarray(r[0])).max()))
+        meta = {"corr": "non_negative_tucker_hals (active_set)", "tensor": X, "core": core, "factors": Fs, "normalize": nm, "fixed": fixed,
+                "sparsity": sps, "n": n}
+        out.append((op, Fraction(scale) / 10 ** 8, np.asarray(r[0]).reshape(-1), [np.asarray(f) for f in r[1]], meta))
+    return out
+
+
 def corr_line(rng, tier, chk):
     from tensorly.decomposition._parafac2 import _BroThesisLineSearch
     out = []
@@ -994,9 +1226,13 @@ def run_correspondence(chk, rng):
     tkf, skipped_py2 = corr_tucker_full(rng, chk.tier)
     groups += tkf
     skipped_py += skipped_py2
+    groups += corr_hals_cp(rng, chk.tier)
+    groups += corr_tucker_hals(rng, chk.tier)
+    groups += corr_aset(rng, chk.tier)
+    groups += corr_tucker_aset(rng, chk.tier)
     groups += corr_line(rng, chk.tier, chk)
     # interleave the groups so that every shard gets a mix of cheap and expensive cases
-    nsh = max(1, -(-len(groups) // (12 if chk.tier == "quick" else 25)))
+    nsh = max(1, -(-len(groups) // (9 if chk.tier == "quick" else 25)))
     groups = [g for k in range(nsh) for g in groups[k::nsh]]
     cases, meta = [], []
     for op, atol, w, Fs, m in groups:
@@ -1008,7 +1244,7 @@ def run_correspondence(chk, rng):
     for i in (0, len(cases) // 2, len(cases) - 1):
         if 0 <= i < len(cases):
             chk.sample({"correspondence": meta[i]["corr"], "inputs": C.jsonable({k: v for k, v in meta[i].items() if k != "corr"})})
-    shard = 12 if chk.tier == "quick" else 25
+    shard = 9 if chk.tier == "quick" else 25
     failing, n_eval, broken = C.run_case_shards("C10", HEADER, "case", cases, shard=shard, timeout=400)
     chk.checker_cmds.append("coqc (vm_compute) on generated build/cases/C10/*.v: Corr.C10.failing")
     # a shard that ran out of time / memory (shared machine) is re-run case by case; a single case that still exceeds its budget
